@@ -51,6 +51,7 @@ func init() {
 var jsonAssumption = "encoding/json is a contract stub over opaque JSON tokens (gosym/json.go): validity, kind per Go type, null handling, RawMessage without surrounding white space, compact output without raw control bytes, last duplicate key wins, case-insensitive struct field match"
 
 func registerMore() {
+	registerMore2()
 	addProp(&PropSpec{
 		ID: "C02",
 		Explanation: "One inbound record (a single member; thorough: also arrays of 1..2 members) is generated from symbolic choices - any subset of the keys jsonrpc/id/method/params/error/result/unknown, each value an opaque JSON token of symbolic kind - " +
@@ -119,6 +120,106 @@ func registerMore() {
 		Assumptions: append([]string{jsonAssumption, "context package modelled by engine intrinsics (cancel flags with parent links)"}, commonAssumptions...),
 		Harnesses: []HarnessSpec{
 			{Dir: "jrpc2", Name: "Harness_C07_step", Reach: []string{"batch-done", "cancel-done", "stop-done", "duplicate-rejected", "cancel-hit"}},
+		},
+	})
+}
+
+var threadAssumption = "sync.Mutex/WaitGroup, channels, select and context are engine intrinsics; x/sync/semaphore and mds/queue are executed from source; scheduler: context switches at blocking operations only (preemption bound 0), at most `delays` deviations from the deterministic lowest-thread-first order"
+
+func delays(q, t int) func(*Config, bool) {
+	return func(c *Config, th bool) {
+		c.Delays = q
+		if th {
+			c.Delays = t
+		}
+	}
+}
+
+func registerMore2() {
+	addProp(&PropSpec{
+		ID: "C01",
+		Explanation: "One inbound message of 1..2 (thorough 1..3) valid requests, each symbolically a call (arbitrary distinct id) or a notification, is run through the real dispatchLocked closure (handler goroutines as engine threads) with symbolic handler outcomes: any result token, *Error with any int32 code, wrapped coded error, context error, unmarshalable result - also for notifications. " +
+			"The single outbound message is parsed back: one response per call, in request order, with that call's id and that handler's outcome; array iff the inbound was an array; nothing for notifications whatever their handlers return; sent after every handler exit (logical clock). C02's harness covers invalid members, C03's the started server.",
+		Bounds:      []string{"batch <= 2 members (thorough 3)", "Concurrency in {1,2}", "delay bound 2", "ids of one batch pairwise different"},
+		Outside:     []string{"several inbound messages in flight at once (C03 harness checks per-request run counts there)", "batches larger than the bound"},
+		Assumptions: append([]string{jsonAssumption, threadAssumption}, commonAssumptions...),
+		Harnesses: []HarnessSpec{
+			{Dir: "jrpc2", Name: "Harness_C01_batch", Reach: []string{"no-output", "result", "error", "unmarshalable"}},
+		},
+	})
+	clientExpl := "Inductive single-step verification of the client: from an arbitrary state allowed by the invariant (0..2 pending requests with distinct decimal ids below a symbolic id counter, each with an empty unsettled slot; running or stopped) one real operation is executed with symbolic arguments - deliverLocked of an arbitrary inbound member, a whole Client.Batch of 1..3 specs (goroutine, then its replies in reverse order), waitComplete after the context ended (before/after the reply), stopLocked with each cause twice, operations on a stopped client - and the invariant plus the per-step contract are asserted. "
+	addProp(&PropSpec{
+		ID:          "C04",
+		Explanation: clientExpl + "C04 clauses: a reply completes exactly the request whose id text it bears and nothing else; new ids differ from all ids in flight and stay below the counter; Batch returns responses in spec order without notifications, each with the reply for its own id; no inbound member panics (wait's id check included).",
+		Bounds:      []string{"<= 2 pending requests in the pre-state", "Batch of 1..3 specs", "id counter any value in [1, 2^40)", "delay bound 2"},
+		Outside:     []string{"reply ids that are textually different but numerically equal to a pending id (e.g. 01, 1.0) are 'other ids' (the client compares text)", "grouping of replies into arrays is a sequence of deliverLocked steps (covered by induction, not run as one record)"},
+		Assumptions: append([]string{jsonAssumption, threadAssumption, "strconv.FormatInt of a symbolic integer is an opaque decimal token, injective in the integer"}, commonAssumptions...),
+		Harnesses:   []HarnessSpec{{Dir: "jrpc2", Name: "Harness_C04_step", Reach: []string{"delivered", "unknown-id", "sent", "notes-only", "send-failed"}}},
+	})
+	addProp(&PropSpec{
+		ID:          "C05",
+		Explanation: clientExpl + "C05 clauses: each response slot receives at most one completion (whoever removes the id from the pending set writes); the reply wins if delivered first, otherwise the context's own error; stop records the first cause, closes the channel once, ends every pending context and the callback context, OnStop once, OnCancel exactly for requests that ended without a reply, hooks outside the lock; a stopped client fails without transmitting; a failed Send registers nothing.",
+		Bounds:      []string{"<= 2 pending requests in the pre-state", "one step per run (histories by induction)", "delay bound 2"},
+		Outside:     []string{"'leaving no goroutine behind' beyond the threads of one step", "deadline (as opposed to cancel) contexts in the step harness: filterError's mapping of both codes is decided in C14"},
+		Assumptions: append([]string{jsonAssumption, threadAssumption}, commonAssumptions...),
+		Harnesses: []HarnessSpec{{Dir: "jrpc2", Name: "Harness_C04_step", Reach: []string{"cancelled", "too-late-cancel", "stopped", "stopped-send", "send-failed"}},
+			{Dir: "jrpc2", Name: "Harness_C10_client", Reach: []string{"closed", "close-waits"}}},
+	})
+	addProp(&PropSpec{
+		ID: "C10",
+		Explanation: "Every threaded and step harness hands the library an instrumented channel.Channel that asserts, inside each call and on every explored schedule: at most one Send in progress, at most one Recv in progress, no Send/Close overlap, Close exactly once per Start/NewClient, Send and Close only while the owner's mutex is held by the calling thread (the engine's mutex intrinsic knows the holder), " +
+			"and that every record passed to Send parses as one JSON object or a non-empty array of objects. C10's check runs the started-server harnesses (C03, C08), the push and client step harnesses (C09, C04) and a real NewClient with callback/notification handlers racing with Call/Notify/Close.",
+		Bounds:      []string{"the workloads of the listed harnesses", "delay bound 2; context switches at blocking operations"},
+		Outside:     []string{"workloads outside those harnesses; preemption inside a critical section is excluded by the lock-held assertion itself"},
+		Assumptions: append([]string{jsonAssumption, threadAssumption}, commonAssumptions...),
+		Harnesses: []HarnessSpec{
+			{Dir: "jrpc2", Name: "Harness_C10_client", Reach: []string{"closed"}},
+			{Dir: "jrpc2", Name: "Harness_C08_run", Reach: []string{"restarted"}, Tweak: delays(1, 2)},
+			{Dir: "jrpc2", Name: "Harness_C03_order", Reach: []string{"done"}, Tweak: delays(1, 2)},
+			{Dir: "jrpc2", Name: "Harness_C09_step", Reach: []string{"notified", "callback-replied"}},
+			{Dir: "jrpc2", Name: "Harness_C04_step", Reach: []string{"sent", "stopped"}},
+		},
+	})
+	addProp(&PropSpec{
+		ID: "C06",
+		Explanation: "(1) ServerOptions.concurrency for every 64-bit Concurrency value and NumCPU >= 1, and the capacity of the semaphore NewServer builds (real x/sync/semaphore source). (2) A batch of 3 gated calls (+ optionally rpc.serverInfo) through the real dispatcher closure with limit in {1,2}: at quiescence exactly `limit` handlers run while the others wait (never more; work-conserving), a waiting call cancelled by CancelRequest never runs and is answered with the cancellation code, all slots are free at the end. C01/C03 harnesses additionally assert the limit.",
+		Bounds:      []string{"Concurrency: any int (options); limit in {1,2} (run)", "3 calls + optional built-in", "delay bound 2"},
+		Outside:     []string{"limits above 2 in the threaded run", "fairness among waiters"},
+		Assumptions: append([]string{jsonAssumption, threadAssumption}, commonAssumptions...),
+		Harnesses: []HarnessSpec{
+			{Dir: "jrpc2", Name: "Harness_C06_opts", Reach: []string{"explicit", "default"}},
+			{Dir: "jrpc2", Name: "Harness_C06_run", Reach: []string{"done"}},
+		},
+	})
+	addProp(&PropSpec{
+		ID: "C08",
+		Explanation: "A real started Server over the instrumented channel: symbolic traffic (a gated call, 0..2 notifications optionally gated, optionally a malformed record: invalid JSON / empty batch / invalid id-less member), then one stop cause (Stop, peer EOF, Recv error), on channels whose Close does and does not unblock Recv, optionally a late record after Stop (valid call, notification, malformed), then WaitStatus, then restart on a fresh channel and one call. " +
+			"Any panic, deadlock or wrong status on any explored schedule is a violation.",
+		Bounds:      []string{"<= 1 call, <= 2 notifications, <= 1 malformed record before the stop, <= 1 late record", "one stop cause per run", "delay bound 2 (thorough 3), <= 10 threads"},
+		Outside:     []string{"a reader parked forever in a Recv that Close does not unblock and whose peer never closes (the channel's contract)", "Send errors (C05 covers the client side)"},
+		Assumptions: append([]string{jsonAssumption, threadAssumption}, commonAssumptions...),
+		Harnesses:   []HarnessSpec{{Dir: "jrpc2", Name: "Harness_C08_run", Reach: []string{"restarted", "call-cancelled", "late-record"}, Tweak: delays(2, 3)}},
+	})
+	addProp(&PropSpec{
+		ID: "C09",
+		Explanation: "Inductive single-step verification of server push: from an arbitrary valid state (push on/off, running/stopped, 0..2 outstanding callbacks with distinct decimal ids below a symbolic counter) one real operation: Notify; Callback in a goroutine followed by its reply / context end / Stop; the reader's filterBatchLocked on a batch of 1..2 members (reply to an outstanding callback, late/duplicate/unsolicited reply with an arbitrary id, request); waitCallback after the context ended, before or after the reply.",
+		Bounds:      []string{"<= 2 outstanding callbacks", "batch <= 2", "callback counter any value in [1, 2^40)"},
+		Outside:     []string{"'replies are delivered while dispatch is parked behind a notification' is structural (filterBatchLocked runs in the reader, which never waits on the barrier); the C03 harness asserts that mu is free during the barrier wait only implicitly (deadlock detection)"},
+		Assumptions: append([]string{jsonAssumption, threadAssumption}, commonAssumptions...),
+		Harnesses: []HarnessSpec{{Dir: "jrpc2", Name: "Harness_C09_step", Reach: []string{"notify-unsupported", "notify-closed", "notified", "callback-unsupported", "callback-closed",
+			"callback-replied", "callback-cancelled", "callback-stopped", "reply-matched", "late-reply-dropped", "ctx-ended", "ctx-too-late"}}},
+	})
+	addProp(&PropSpec{
+		ID: "C13",
+		Explanation: "(1) Arbitrary protocol messages (symbolic id, method bytes, params/result tokens, error with any code) through the real jmessage(s).toJSON and back through the real parser: equality of every field, version marker, no raw control byte written by the library (tokens carry an 'inner white space' attribute; json.Marshal compacts). " +
+			"(2) The real producers: Client.req/note with marshalParams, Server.pushReq, Response.MarshalJSON after SetID. (3) ParseRequests on generated members: one entry per member, flagged exactly when structurally invalid, with a server code; invalid JSON is a top-level error.",
+		Bounds:      []string{"method names <= 2 bytes (symbolic)", "1 message (thorough: batches of 2)", "member generator as in C02 (quick classes)"},
+		Outside:     []string{"validity / UTF-8 of json.Marshal's own output (encoding/json is a stub): unicode, quotes and HTML metacharacters in method names are handled inside it", "an independent validator (only the library's parser and the engine's JSON reader are used)"},
+		Assumptions: append([]string{jsonAssumption}, commonAssumptions...),
+		Harnesses: []HarnessSpec{
+			{Dir: "jrpc2", Name: "Harness_C13_roundtrip", Reach: []string{"roundtrip"}},
+			{Dir: "jrpc2", Name: "Harness_C13_producers", Reach: []string{"bad-params", "client-request", "push", "response"}},
+			{Dir: "jrpc2", Name: "Harness_C13_parse", Reach: []string{"valid-member", "invalid-member", "invalid-json"}},
 		},
 	})
 }
